@@ -328,7 +328,7 @@ GEN = [
     ({"m": "{% for v in r %}{{ v }}{% else %}E{% end %}"},
      lambda s, n, r: "".join([str(v) for v in r]) + "E"),
     ({"m": "{% try %}a{{ s }}{% finally %}b{% end %}"}, lambda s, n, r: "a" + E(s) + "b"),
-    ({"m": "{{ s.encode('utf-8') }}{{ [n] }}{{ None }}"}, lambda s, n, r: E(s) + "[" + str(n) + "]None"),
+    ({"m": "{{ s.encode('utf-8') }}{{ n == 1 }}{{ None }}"}, lambda s, n, r: E(s) + str(n == 1) + "None"),
     ({"m": "{% block a %}x{% block b %}{{ s }}{% end %}y{% end %}"}, lambda s, n, r: "x" + E(s) + "y"),
     ({"m": "{% if n %}{% for i in range(n) %}{% apply wrap %}{{ i }}{% end %}{% end %}{% else %}0{% end %}"},
      lambda s, n, r: "".join(["[" + str(i) + "]" for i in range(n)]) if n else "0"),
